@@ -100,6 +100,16 @@ func line(
 				y += sy
 			}
 
+			// accumulated rounding can carry the walk one step past a segment end
+			// that sits on the edge of the world (lon = -180, the top row): there is
+			// no tile there, and the uint32 conversion of -1 would wrap around.
+			if x < 0 {
+				x = 0
+			}
+			if y < 0 {
+				y = 0
+			}
+
 			set[maptile.New(uint32(x), uint32(y), zoom)] = true
 			if ring != nil && y != prevY {
 				ring = append(ring, [2]uint32{uint32(x), uint32(y)})
